@@ -28,7 +28,9 @@ RULE = ('Function level: row sequences (1-4 columns, 1-400 rows, values from sma
         'in-process ranking / identify_rare_values tasks on generated files for every batch size in a generated set of divisors of '
         'the row count. Non-trivial = >=2 batches and some value occurs in >=2 batches; rare clause: a pair crosses the threshold '
         'before the last batch. Distinct = digest of the case.')
-ASSUMPTIONS = ['cardinalities stay far below the sketch warm-up capacity (2^18 is the subject of C14); 32-bit hash collisions among the few '
+ASSUMPTIONS = ['value counts: exact while fewer distinct values than --max_unique_hist_constraint were seen; beyond that only '
+               '"no over-count, at most capacity values" (C15) and independence of the batch split are asserted',
+               'cardinalities stay far below the sketch warm-up capacity (2^18 is the subject of C14); 32-bit hash collisions among the few '
                'generated values are not expected and would be reported',
                'coverage annotation: cases whose exact mean lies within 1e-9 of a rounding tie (x.x5) are excluded and counted']
 
@@ -73,7 +75,8 @@ def function_case(draw):
     n = seq['n']
     ncuts = draw(st.integers(0, min(6, n - 1)))
     cuts = sorted(set(draw(st.lists(st.integers(1, max(1, n - 1)), min_size=ncuts, max_size=ncuts)))) if n > 1 else []
-    return {'seq': seq, 'cuts': cuts, 'bound': draw(st.integers(0, 5)), 'missing': draw(st.sampled_from(MISSING_SETS))}
+    return {'seq': seq, 'cuts': cuts, 'bound': draw(st.integers(0, 5)), 'missing': draw(st.sampled_from(MISSING_SETS)),
+            'hist_bound': draw(st.sampled_from([30_000, 30_000, 1, 2, 3, 5]))}
 
 
 def batches_of(cols, n, cuts):
@@ -97,9 +100,18 @@ def drive_functions(frames, bound, missing, hist_bound=30_000):
     return cov, card, hist, rare
 
 
-def check_functions(cols, n, cuts, bound, missing, label):
+def bounded_counter_model(vals, hist_bound):
+    """Item-by-item bounded counter (C15): an update is refused once hist_bound distinct values are tracked."""
+    c = {}
+    for v in vals:
+        if len(c) < hist_bound:
+            c[v] = c.get(v, 0) + 1
+    return c
+
+
+def check_functions(cols, n, cuts, bound, missing, label, hist_bound=30_000):
     frames = batches_of(cols, n, cuts)
-    cov, card, hist, rare = drive_functions(frames, bound, missing)
+    cov, card, hist, rare = drive_functions(frames, bound, missing, hist_bound)
     miss = set(missing.split(','))
     for bi, (df, c) in enumerate(zip(frames, cov)):
         for name in cols:
@@ -114,9 +126,15 @@ def check_functions(cols, n, cuts, bound, missing, label):
         if card.get(name) != exp_card:
             raise Violation(f'{label}: cardinality of {name} reported as {card.get(name)}, {exp_card} distinct non-empty values '
                             f'(batches {[len(f) for f in frames]})', kind='C13/cardinality')
-        exp_hist = dict(Counter(vals))
-        if hist.get(name) != exp_hist:
-            raise Violation(f'{label}: value counts of {name} are {hist.get(name)}, exact {exp_hist}', kind='C13/histogram')
+        true_hist = dict(Counter(vals))
+        got_hist = hist.get(name) or {}
+        if len(true_hist) < hist_bound:
+            if got_hist != true_hist:
+                raise Violation(f'{label}: value counts of {name} are {got_hist}, exact {true_hist} (capacity {hist_bound} not reached); '
+                                f'batches {[len(f) for f in frames]}', kind='C13/histogram')
+        elif len(got_hist) > hist_bound or any(got_hist[k] > true_hist.get(k, 0) for k in got_hist):
+            raise Violation(f'{label}: value counts of {name} are {got_hist}: more than {hist_bound} tracked values or an over-count '
+                            f'(exact {true_hist})', kind='C13/histogram')
     exp_rare = {}
     for name, vals in cols.items():
         for v, k in Counter(vals).items():
@@ -127,7 +145,7 @@ def check_functions(cols, n, cuts, bound, missing, label):
         lack = {k: v for k, v in exp_rare.items() if k not in rare}
         raise Violation(f'{label}: rare-value report (count <= {bound}) has wrong entries {dict(list(extra.items())[:3])}, lacks '
                         f'{dict(list(lack.items())[:3])}; batches {[len(f) for f in frames]}', kind='C13/rare')
-    return len(frames)
+    return hist
 
 
 def oracle_functions(case, rec):
@@ -148,8 +166,15 @@ def oracle_functions(case, rec):
     rec.cls('batches=%s' % (len(edges) - 1 if len(edges) - 1 < 4 else '4+'))
     if crossing:
         rec.cls('rare:pair-retired-then-reappears')
-    check_functions(cols, n, cuts, case['bound'], case['missing'], 'generated split')
-    check_functions(cols, n, [], case['bound'], case['missing'], 'unsplit')
+    hb = int(case.get('hist_bound', 30_000))
+    if hb < 30_000:
+        rec.cls('histogram-capacity-reached' if any(len(set(v)) >= hb for v in cols.values()) else 'histogram-capacity-small')
+    h_split = check_functions(cols, n, cuts, case['bound'], case['missing'], 'generated split', hb)
+    h_whole = check_functions(cols, n, [], case['bound'], case['missing'], 'unsplit', hb)
+    if h_split != h_whole:
+        name = next(k for k in h_whole if h_split.get(k) != h_whole[k])
+        raise Violation(f'value counts of {name} depend on the batch split: {h_split.get(name)} for cuts {cuts}, {h_whole[name]} unsplit '
+                        f'(counter capacity {hb})', kind='C13/histogram-split')
 
 
 # ---- exhaustive compositions -----------------------------------------------------------------------------
@@ -166,12 +191,20 @@ def _exhaustive(shard):
         cols = {'f0': [['a', 'b', '', 'c'][int(i)] for i in rng.integers(0, 4, size=n)],
                 'f1': [['x', 'x', 'y', '{}'][int(i)] for i in rng.integers(0, 4, size=n)]}
         bound = int(rng.integers(0, 3))
+        hb = [30_000, 2, 3][rep % 3]
+        whole = None
         for r in range(0, n):
             for cuts in itertools.combinations(range(1, n), r):
                 try:
-                    check_functions(cols, n, list(cuts), bound, ',{}', 'composition')
+                    h = check_functions(cols, n, list(cuts), bound, ',{}', 'composition', hb)
+                    if whole is None:
+                        whole = h      # r == 0: the unsplit composition comes first
+                    elif h != whole:
+                        raise Violation(f'value counts depend on the batch split: {h} for cuts {list(cuts)}, {whole} unsplit '
+                                        f'(counter capacity {hb})', kind='C13/histogram-split')
                 except Violation as v:
-                    return evals, nt, {'seq': {'n': n, 'cols': cols}, 'cuts': list(cuts), 'bound': bound, 'missing': ',{}'}, str(v)
+                    return evals, nt, {'seq': {'n': n, 'cols': cols}, 'cuts': list(cuts), 'bound': bound, 'missing': ',{}',
+                                       'hist_bound': hb}, str(v)
                 evals += 1
                 nt += 1 if cuts else 0
     return evals, nt, None, None
@@ -282,7 +315,7 @@ def oracle_pipeline(case, rec):
 
 KNOWN_EMPTY = [False]
 ORACLES = {'C13/functions': oracle_functions, 'C13/pipeline': oracle_pipeline, 'C13/compositions': oracle_functions}
-for _k in ('coverage', 'cardinality', 'histogram', 'rare'):
+for _k in ('coverage', 'cardinality', 'histogram', 'histogram-split', 'rare'):
     ORACLES['C13/' + _k] = oracle_functions
 for _k in ('annotation', 'repetitions', 'rare-report', 'rare-report-empty'):
     ORACLES['C13/' + _k] = oracle_pipeline
@@ -301,8 +334,7 @@ def run(ctx):
             first_fail = (fail, detail)
     if first_fail is not None:
         fail, detail = first_fail
-        r = ctx.run_oracle('C13/compositions', lambda c, rec: check_functions(c['seq']['cols'], c['seq']['n'], c['cuts'], c['bound'],
-                                                                               c['missing'], 'composition'), fail, Stats())
+        r = ctx.run_oracle('C13/compositions', oracle_functions, fail, Stats())
         ctx.report(r[0] if r else 'C13/compositions', fail, r[1] if r else detail)
     ctx.stats.evaluations += tot
     ctx.stats.nontrivial_count_only += totnt
